@@ -34,6 +34,8 @@ def marked(r, v, i, kinds=None, shared=None):
             pool += [("set_epic", 6)]
     if len(v.tasks) >= 2:
         pool += [("seq_opposed", 0)]          # only on request: A and B ask for the two directions of one edge
+    if v.tasks:
+        pool += [("set_same", 0)]             # only on request: A and B move the *same* task to different states (what one validates, the other changes)
     if kinds:
         pool = [(k, w if w else 10) for k, w in pool if k in kinds] or [(k, w) for k, w in pool if w]
     else:
@@ -51,6 +53,23 @@ def marked(r, v, i, kinds=None, shared=None):
         e = r.pick(empty) if empty and r.p(80) else r.pick(v.epics)
         if k == "new_in_epic": return dict(cmd="new_task", **J({"title": tag + " new", "epic": e})), ag, k
         return dict(cmd="set", id=r.pick(v.tasks), **J({"title": tag + " retitled", "epic": e})), ag, k
+    if k == "set_same":
+        shared = shared if shared is not None else {}
+        if "task" not in shared:
+            doing = [t for t in v.tasks if v.by_id[t]["st"] == "doing"]
+            shared["task"] = r.pick(doing) if doing and r.p(70) else r.pick(todo or v.tasks)
+            shared["directed"] = r.p(65)
+        t = shared["task"]
+        cur = v.by_id[t]["st"]
+        if shared["directed"] and cur in ("doing", "todo", "blocked"):
+            # A asks for a move that is allowed from the task's present state; B first takes the task somewhere from where it is not
+            st_ = ("error" if cur == "doing" else "done") if i == 0 else ("todo" if cur == "doing" and r.p(50) else "canceled")
+            upd = {"title": tag + " retitled", "state": st_}
+        else:
+            upd = {"title": tag + " retitled", "state": r.pick(gen.STATES)}
+            if r.p(40):
+                upd["claim"] = r.pick([ag, ""])
+        return dict(cmd="set", id=t, **J(upd)), ag, k
     if k == "seq_opposed":
         shared = shared if shared is not None else {}
         if "pair" not in shared:
